@@ -227,4 +227,6 @@ func runC05(r *mon.Run) {
 	// widths: every single-byte scalar through the constant-time and the
 	// variable-time fixed-base entry points, compared with the reference table
 	runColdStart(r, "c05", r.N(16, 48), "gtable")
+	// results that are functions of the arguments alone do not depend on the process-wide system entropy stream
+	runDegradedEntropy(r, "c05", r.N(40, 600), "sbm", "pubkey")
 }
